@@ -1,7 +1,22 @@
 # property id -> campaign function
-import props_codec
+import props_codec, props_session
 CAMPAIGNS = {
     'C01': props_codec.c01,
     'C02': props_codec.c02,
     'C03': props_codec.c03,
+    'C04': props_session.c04,
+    'C05': props_session.c05,
+    'C06': props_session.c06,
+    'C07': props_session.c07,
+    'C08': props_session.c08,
+    'C09': props_session.c09,
+    'C10': props_session.c10,
+    'C11': props_session.c11,
+    'C12': props_session.c12,
+    'C13': props_session.c13,
+    'C14': props_session.c14,
+    'C15': props_session.c15,
+    'C16': props_session.c16,
+    'C17': props_session.c17,
+    'C18': props_session.c18,
 }
